@@ -104,13 +104,3 @@ Definition scopes_ops (delglob_fixed : bool) : ops sX sheap sC :=
 
 Definition run_scopes (delglob_fixed : bool) (n : nat) (prog : list stmt) (main : expr) : outcome :=
   run_gen (scopes_ops delglob_fixed) None [] n prog main.
-
-(* compile-time restriction of the compiler, not a behaviour: 'del' of a variable that is referenced
-   in a nested scope is rejected ("can not delete variable 'x' referenced in nested scope") *)
-Fixpoint dels_s (s : stmt) : list ident :=
-  match s with
-  | SDel x => [x]
-  | SIf _ t f => flat_map dels_s t ++ flat_map dels_s f
-  | SWhile _ b => flat_map dels_s b
-  | _ => []
-  end.
